@@ -52,8 +52,9 @@ LEVEL_TEXT = ("Model-based exploration of training histories on real premade "
 LEVEL_NOTE = ("Monotonicity tolerance 1e-5*max|f| per pair, bounds 1e-5*max(1,"
               "|bound|). Configurations inside open findings F-C01-1 (Edgeworth "
               "and trapezoid trusts together) and F-C04-1 (monotone + convex "
-              "calibrator) are not generated; learned keypoint logits are kept "
-              "below |30| (F-C15-2). Non-finite weights after a step (float "
+              "calibrator) are not generated; adversarial updates keep learned "
+              "keypoint logits below |30|, optimizer steps that push them apart "
+              "by more than 85 reach finding F-C03-4 (= F-C15-2). Non-finite weights after a step (float "
               "overflow) end the history and are counted, not judged. fit() / "
               "other optimizers are assumed to apply constraints the same way.")
 
@@ -238,7 +239,9 @@ def judge(sim, out, after):
   y0 = sim.f(sim.x)
   out.checks += 1
   if not np.all(np.isfinite(y0)):
-    out.violate("non-finite model output after %s" % after, kind="finite", **sig)
+    out.violate("non-finite model output after %s" % after, kind="finite",
+                collapsed_learned_keypoint=_collapsed_learned_keypoint(
+                    sim.model), **sig)
     return
   for j, direction, mod, typ in sim.plans:
     if typ == "numeric":
@@ -292,6 +295,21 @@ def _linear_init_wrong_sign(model):
         found[0] = True
   walk(model)
   return found[0]
+
+
+def _collapsed_learned_keypoint(model):
+  """True iff some learned keypoint gap softmax(logits) underflows in float32.
+
+  That is the region of finding F-C15-2 (0/0 at a collapsed keypoint): the
+  spread of the interpolation logits of one unit (last axis) exceeds 85 (e^-87.3 is the
+  smallest normal float32).
+  """
+  for v in model.weights:
+    if "interpolation_logits" in v.name:
+      a = v.numpy().astype(np.float64)
+      if a.size and float(np.max(np.max(a, axis=-1) - np.min(a, axis=-1))) > 85.0:
+        return True
+  return False
 
 
 def _collapsed_average(model):
